@@ -101,6 +101,55 @@ func init() {
 	add(spec{name: "K1", k: kChild, parent: "P2", idByte: 0x61})
 	add(spec{name: "K2", k: kChild, parent: "P2", idByte: 0x62})
 	add(spec{name: "TP2", k: kTomb, target: "P2", exp: 3, idByte: 0x91})
+	// expiration-index family (container cB): expired objects whose lock outlives the whole run, and
+	// unlocked expired objects before / after them in the expiration index (epoch order, then ID order)
+	add(spec{name: "XB", k: kReg, cnr: 1, exp: 1, idByte: 0x48})  // earlier epoch than XL
+	add(spec{name: "XS", k: kReg, cnr: 1, exp: 2, idByte: 0x38})  // same epoch, smaller ID
+	add(spec{name: "XL", k: kReg, cnr: 1, exp: 2, idByte: 0x40})  // expired + live lock LL
+	add(spec{name: "XG", k: kReg, cnr: 1, exp: 2, idByte: 0x48})  // same epoch, greater ID
+	add(spec{name: "XA", k: kReg, cnr: 1, exp: 3, idByte: 0x30})  // later epoch
+	add(spec{name: "XL2", k: kReg, cnr: 1, exp: 3, idByte: 0x40}) // second expired + live lock LL2
+	add(spec{name: "XA2", k: kReg, cnr: 1, exp: 4, idByte: 0x30}) // after the second locked one
+	add(spec{name: "XV", k: kReg, cnr: 1, idByte: 0x44})          // alive, never expires
+	add(spec{name: "LL", k: kLock, cnr: 1, target: "XL", exp: longLockExp, idByte: 0x10})
+	add(spec{name: "LL2", k: kLock, cnr: 1, target: "XL2", exp: longLockExp, idByte: 0xf0})
+}
+
+// longLockExp is beyond the last epoch the driver ever reaches: these locks are alive at quiescence.
+const longLockExp = 1000
+
+// expiration-index scripts: every subset of the unlocked expired objects x {one, two} locked expired
+// objects x {alive object present or not} x {natural, reversed} arrival order
+func expIndexScripts() [][]string {
+	unlocked := []string{"XB", "XS", "XG", "XA", "XA2"}
+	var out [][]string
+	for m := 0; m < 1<<len(unlocked); m++ {
+		for locked := 1; locked <= 2; locked++ {
+			for _, alive := range []bool{false, true} {
+				sc := []string{"XL", "LL"}
+				if locked == 2 {
+					sc = append(sc, "XL2", "LL2")
+				}
+				for i, n := range unlocked {
+					if m&(1<<i) != 0 {
+						sc = append(sc, n)
+					}
+				}
+				if alive {
+					sc = append(sc, "XV")
+				}
+				out = append(out, sc)
+				if (m+locked)%2 == 0 {
+					rv := make([]string, len(sc))
+					for i := range sc {
+						rv[i] = sc[len(sc)-1-i]
+					}
+					out = append(out, rv)
+				}
+			}
+		}
+	}
+	return out
 }
 
 var bulkScripts = [][]string{
@@ -403,7 +452,19 @@ func (s *sys) apply(m *model, o op) string {
 
 // reasons why a stored object must be gone at the fixpoint (epoch beyond every expiration in the
 // universe, so every lock is dead and every expiring object is unlocked-and-expired).
-func (m *model) reasons(n string) []string {
+func (m *model) liveLocked(n string, epoch uint64) bool {
+	for ln := range m.stored {
+		l := byName[ln]
+		if l.k == kLock && l.target == n && l.exp >= epoch && !m.doomedC[ln] && !m.marked[ln] {
+			return true
+		}
+	}
+	return false
+}
+
+// epoch = the epoch of the quiescent state; it is beyond every expiration of the universe except the
+// long-lived locks (longLockExp), which are alive there.
+func (m *model) reasons(n string, epoch uint64) []string {
 	u := byName[n]
 	var rs []string
 	if m.tombed[n] || (u.parent != "" && m.tombed[u.parent]) {
@@ -412,7 +473,7 @@ func (m *model) reasons(n string) []string {
 	if m.marked[n] {
 		rs = append(rs, "garbage-marked")
 	}
-	if u.exp != 0 {
+	if u.exp != 0 && epoch > u.exp && !m.liveLocked(n, epoch) {
 		switch u.k {
 		case kTomb:
 			rs = append(rs, "expired-tombstone")
@@ -649,12 +710,22 @@ func (c *checker) run(seq []int, verbose bool) {
 		if !m.stored[n] {
 			continue
 		}
-		rs := m.reasons(n)
+		rs := m.reasons(n, s.ep.v.Load())
 		if len(rs) == 0 {
 			if sn.blobs[n] {
 				outcome = append(outcome, n+":kept")
 			} else {
 				outcome = append(outcome, n+":lost")
+			}
+			if ep := s.ep.v.Load(); u.exp != 0 && ep > u.exp && u.k == kReg && m.liveLocked(n, ep) {
+				// expired but protected by a lock that is still alive: GC must leave it alone
+				doomedAny = true
+				outcome[len(outcome)-1] += "(expired+live-lock)"
+				if !sn.blobs[n] || len(sn.keys[n]) == 0 {
+					c.violation("expired-object-with-live-lock-removed",
+						fmt.Sprintf("history [%s] (results %v): at quiescence (epoch %d) %s is expired but its lock lives until epoch %d, yet GC removed it (blob present: %v, metabase keys: %v)",
+							hist, obs, ep, n, longLockExp, sn.blobs[n], sn.keys[n]), tc)
+				}
 			}
 			continue
 		}
@@ -683,7 +754,7 @@ func (c *checker) run(seq []int, verbose bool) {
 		for _, cn := range names {
 			if byName[cn].parent == n && m.stored[cn] {
 				childStored = true
-				if len(m.reasons(cn)) == 0 {
+				if len(m.reasons(cn, s.ep.v.Load())) == 0 {
 					childKept = true
 				}
 			}
@@ -766,6 +837,10 @@ func main() {
 	for _, sc := range bulkScripts {
 		c.run(scriptSeq(r, sc), false)
 	}
+	// expiration-index family: an unlocked expired object is collected whatever else is in its container
+	xs := expIndexScripts()
+	enumx.Parallel(len(xs), func(i int) { c.run(scriptSeq(r, xs[i]), false) })
+	r.Set("expiration_index_scripts", len(xs))
 	tick := nEnum - 1
 	for d := 0; d <= maxDepth; d++ {
 		// every sequence of length d; an operation other than Epoch+1 is used at most once (repeating
@@ -815,7 +890,7 @@ func main() {
 		}
 		return a
 	}())
-	r.Rule("2 scripted bulk histories (31-33 operations: 6 tombstoned, 5 expiring (3 of them locked), 7 removed-container objects, a tombstoned split object, mixed with epoch ticks; garbage volume 15-30 objects vs remover batch 2) + every operation sequence of length <= depth over the 17-op alphabet (12 puts: regular +- expiration, two split children of two parents, 4 tombstones, 2 locks; 2 garbage marks; 2 container removals; epoch tick; non-tick ops used at most once) applied to a fresh real one-shard engine, then (epoch+1; new-epoch handler; remover pass)* until the raw metabase dump + blob set is unchanged for 2 rounds beyond every expiration; non-trivial = distinct expectation vector with at least one object/container that must be removed")
+	r.Rule("192 scripted expiration-index histories in one container (1 or 2 expired objects whose lock outlives the run x every subset of 5 unlocked expired objects placed before / after them in the expiration index: earlier epoch, same epoch with smaller and greater ID, later epoch, after the second locked one x alive object present or not, natural and reversed arrival; oracle: the unlocked expired ones are gone, the locked ones are kept) + 2 scripted bulk histories (31-33 operations: 6 tombstoned, 5 expiring (3 of them locked), 7 removed-container objects, a tombstoned split object, mixed with epoch ticks; garbage volume 15-30 objects vs remover batch 2) + every operation sequence of length <= depth over the 17-op alphabet (12 puts: regular +- expiration, two split children of two parents, 4 tombstones, 2 locks; 2 garbage marks; 2 container removals; epoch tick; non-tick ops used at most once) applied to a fresh real one-shard engine, then (epoch+1; new-epoch handler; remover pass)* until the raw metabase dump + blob set is unchanged for 2 rounds beyond every expiration; non-trivial = distinct expectation vector with at least one object/container that must be removed")
 	r.Exhaustive(exhaustive)
 	r.Assume("one shard, no write-cache, remover batch size 2, GC jobs invoked synchronously (ticker interval 24h); payments disabled",
 		"operation acceptance is the engine's return value; the model (which objects must go and why) is written from the property text",
